@@ -83,3 +83,14 @@ func isTag(obj slip.Object) bool {
 	}
 	return obj == slip.True // t is read as true and not as a symbol
 }
+
+// tagIndex returns the index of the tag in forms at or after start or -1 if
+// the tag is not in forms.
+func tagIndex(forms slip.List, start int, tag slip.Object) int {
+	for i := start; i < len(forms); i++ {
+		if isTag(forms[i]) && slip.ObjectEqual(forms[i], tag) {
+			return i
+		}
+	}
+	return -1
+}
